@@ -141,6 +141,8 @@ type FnCtx struct {
 	unroll       int
 	cmpLabel     string
 	frameNoted   bool
+	axiomsDone   bool
+	axiomCache   []string
 	baseElem     map[string]types.Type
 	baseKeySort  map[string]string
 	recordBases  map[string]string
